@@ -274,6 +274,60 @@ enum EGated {
     #[cfg_attr(target_os = "c06-none", serde(rename = "fin"))]
     Done(u8),
 }
+
+// deepening round 7: non-ASCII identifiers under the rules serde_derive computes with ASCII operations only
+// (every field rule; PascalCase / lowercase / UPPERCASE variant rules; camelCase when the first character is
+// ASCII - with a non-ASCII first character the derive macro itself panics, so such a type cannot be compiled)
+macro_rules! real_ustruct {
+    ($name:ident, $rule:literal) => {
+        #[allow(non_snake_case, dead_code, uncommon_codepoints)]
+        #[derive(serde::Serialize, Default)]
+        #[serde(rename_all = $rule)]
+        struct $name { größe_x: u8, naïve_été: u8, x_ß: u8, a_名前: u8, #[serde(rename = "ü-named")] r_ü: u8, #[serde(skip)] s_é: u8 }
+    };
+}
+macro_rules! real_ustruct_head {
+    ($name:ident, $rule:literal) => {
+        #[allow(non_snake_case, dead_code, uncommon_codepoints)]
+        #[derive(serde::Serialize, Default)]
+        #[serde(rename_all = $rule)]
+        struct $name { 名前: u8, été_x: u8, _ö_b: u8 }
+    };
+}
+macro_rules! real_uenum {
+    ($name:ident, $rule:literal) => {
+        #[allow(non_camel_case_types, dead_code, uncommon_codepoints)]
+        #[derive(serde::Serialize)]
+        #[serde(rename_all = $rule)]
+        enum $name { Été, Naïve, Größe, A名, Snake_Ünder }
+        impl $name { fn all() -> Vec<$name> { use $name::*; vec![Été, Naïve, Größe, A名, Snake_Ünder] } }
+    };
+}
+real_ustruct!(UsLower, "lowercase");
+real_ustruct!(UsUpper, "UPPERCASE");
+real_ustruct!(UsPascal, "PascalCase");
+real_ustruct!(UsCamel, "camelCase");
+real_ustruct!(UsSnake, "snake_case");
+real_ustruct!(UsScreaming, "SCREAMING_SNAKE_CASE");
+real_ustruct!(UsKebab, "kebab-case");
+real_ustruct!(UsScreamingKebab, "SCREAMING-KEBAB-CASE");
+real_ustruct_head!(UhLower, "lowercase");
+real_ustruct_head!(UhUpper, "UPPERCASE");
+real_ustruct_head!(UhPascal, "PascalCase");
+real_ustruct_head!(UhSnake, "snake_case");
+real_ustruct_head!(UhScreaming, "SCREAMING_SNAKE_CASE");
+real_ustruct_head!(UhKebab, "kebab-case");
+real_ustruct_head!(UhScreamingKebab, "SCREAMING-KEBAB-CASE");
+real_uenum!(UeLower, "lowercase");
+real_uenum!(UeUpper, "UPPERCASE");
+real_uenum!(UePascal, "PascalCase");
+#[allow(non_camel_case_types, dead_code, uncommon_codepoints)]
+#[derive(serde::Serialize)]
+#[serde(rename_all = "camelCase")]
+enum UeCamel { Naïve, Größe, A名 }
+#[allow(non_snake_case, dead_code, uncommon_codepoints)]
+#[derive(serde::Serialize, Default)]
+struct UsNone { größe_x: u8, 名前: u8 }
 /// wire name of a variant: the string itself, or the single key of the externally tagged object
 fn variant_name<T: serde::Serialize>(v: &T) -> String {
     match serde_json::to_value(v).unwrap() {
@@ -336,6 +390,18 @@ pub fn real_serde(case: &Value) -> Value {
         "gated_s": keys_of(&SGated::default()),
         "gated_e": [variant_name(&EGated::InProgress), variant_name(&EGated::Done(1))],
         "fieldsonly": [variant_name(&EFieldsOnly::TaskStarted { to_x: 1 }), variant_name(&EFieldsOnly::Idle)]},
+      "uni": {
+        "s:lowercase": keys_of(&UsLower::default()), "s:UPPERCASE": keys_of(&UsUpper::default()),
+        "s:PascalCase": keys_of(&UsPascal::default()), "s:camelCase": keys_of(&UsCamel::default()),
+        "s:snake_case": keys_of(&UsSnake::default()), "s:SCREAMING_SNAKE_CASE": keys_of(&UsScreaming::default()),
+        "s:kebab-case": keys_of(&UsKebab::default()), "s:SCREAMING-KEBAB-CASE": keys_of(&UsScreamingKebab::default()),
+        "h:lowercase": keys_of(&UhLower::default()), "h:UPPERCASE": keys_of(&UhUpper::default()),
+        "h:PascalCase": keys_of(&UhPascal::default()), "h:snake_case": keys_of(&UhSnake::default()),
+        "h:SCREAMING_SNAKE_CASE": keys_of(&UhScreaming::default()), "h:kebab-case": keys_of(&UhKebab::default()),
+        "h:SCREAMING-KEBAB-CASE": keys_of(&UhScreamingKebab::default()),
+        "e:lowercase": lits_of(UeLower::all()), "e:UPPERCASE": lits_of(UeUpper::all()), "e:PascalCase": lits_of(UePascal::all()),
+        "e:camelCase": lits_of(vec![UeCamel::Naïve, UeCamel::Größe, UeCamel::A名]),
+        "n:": keys_of(&UsNone::default())},
       "enum": {
         "lowercase": lits_of(ELower::all()), "UPPERCASE": lits_of(EUpper::all()), "PascalCase": lits_of(EPascal::all()),
         "camelCase": lits_of(ECamel::all()), "snake_case": lits_of(ESnake::all()),
